@@ -145,7 +145,8 @@ def cases(spec, ctx):
                "how": rng.choice(["let", "let", "from"]), "quant": rng.choice(["an", "an", "a"]),
                "split": rng.random() < 0.3, "times": rng.choice([1, 2, 3]), "caching": rng.random() < 0.8,
                "take_first": rng.choice([0, 0, 0, 1, 2]), "keep_first": rng.random() < 0.4, "in_block": rng.random() < 0.15,
-               "dom_mode": rng.choice(["empty", "other"]) if rng.random() < 0.06 else "normal"}
+               "dom_mode": rng.choice(["empty", "other"]) if rng.random() < 0.06 else "normal",
+               "other_switch_first": rng.random() < 0.12}
 
 
 def check_case(case, ctx):
@@ -176,6 +177,8 @@ def check_case(case, ctx):
         ctx.nontrivial()
     times = case.get("times", 2)
     ctx.cls(f"evaluations_of_the_same_query:{times}")
+    if case.get("other_switch_first"):
+        ctx.cls("preceded_by_an_evaluation_under_the_other_caching_switch")
     if case.get("take_first"):
         ctx.cls("preceded_by_an_abandoned_evaluation")
         if case.get("keep_first"):
@@ -184,7 +187,8 @@ def check_case(case, ctx):
         gots = H.run_an(world, [kind], cond, [0], form=case.get("form", "entity"), how=case.get("how", "let"),
                         quant=case.get("quant", "an"), split_top_and=case.get("split", False), times=times,
                         caching=case.get("caching", True), take_first=case.get("take_first", 0),
-                        consume_in_block=case.get("in_block", False), keep_first=case.get("keep_first", False))
+                        consume_in_block=case.get("in_block", False), keep_first=case.get("keep_first", False),
+                        first_under_other_switch=bool(case.get("other_switch_first")))
     except Exception as e:
         ctx.fail("EXC", f"{type(e).__name__}: {e}", expected=exp)
         return
